@@ -393,6 +393,9 @@ class Check:
             "worker_processes": runs,
             "runs_per_hour": int(runs / wall * 3600) if wall > 0 else 0,
             "cases_per_hour": int(self.cases / wall * 3600) if wall > 0 else 0,
+            "seeds_per_hour": int(self.cases / wall * 3600) if wall > 0 else 0,
+            "seeds_note": "every case derives its own PRNG seed from (VERIF_SEED, property, case index); every simulated run inside a case has its own schedule seed",
+            "simulated_stdin_arrival_events": self.probes.get("stdin_deliveries", 0),
             "scheduler_steps": self.pool.sim_steps,
             "distinct_traces": len(self.trace_hashes),
             "abstract_states_sum": self.states_sum,
